@@ -415,6 +415,35 @@ def atom_ctors():
                                       np.asarray(doc_value(ns), dtype=object).reshape(-1)))],
                                  mode="D", label=f"xtype={xt}")
         out.extend(obs)
+    # the same atoms spelled as METHODS of variables, slices and expressions (separate code from the math.py front ends):
+    # they must build the very expression the front end builds
+    METHOD = {
+        "A": lambda v, X: v.abs(), "M": lambda v, X: v.norm(1), "I": lambda v, X: v.norm("inf"), "E": lambda v, X: v.norm(2),
+        "S": lambda v, X: v.square(), "Q": lambda v, X: v.sumsqr(), "X": lambda v, X: v.exp(), "L": lambda v, X: v.log(),
+        "F": lambda v, X: v.softplus(), "P": lambda v, X: v.entropy(), "N": lambda v, X: v.pnorm(2.5), "G": lambda v, X: v.pnorm(3),
+        "T": lambda v, X: v.power(3), "C": lambda v, X: v.gmean(), "O": lambda v, X: X.logdet(), "D": lambda v, X: X.rootdet(),
+    }
+    for front in ("ro", "dro"):
+        for receiver in ("variable", "slice", "expression"):
+            for xt in XTYPES:
+                def setup(c, xt=xt, front=front, receiver=receiver):
+                    global FRONT
+                    FRONT = front
+                    m, x, y, X, model = _new(mat=xt in "OD")
+                    FRONT = "ro"
+                    v = x if receiver == "variable" else x[0:2] if receiver == "slice" else 1.0 * x + 0
+                    return {"x": x, "X": X, "v": v, "xbar": valuation(c, model), "xt": xt}
+
+                def same_as_front_end(ns, res):
+                    ref = ATOM[ns["xt"]](ns["v"], ns["X"])
+                    if type(res) is not type(ref) or res.xtype != ref.xtype or res.sign != ref.sign:
+                        return False
+                    a, b = atoms.den_convex(res, ns["xbar"]), atoms.den_convex(ref, ns["xbar"])
+                    return views.all_eq(np.asarray(a, dtype=object).reshape(-1), np.asarray(b, dtype=object).reshape(-1))
+                obs, st = check_function(f"rsome.lp:<{receiver}>.<atom method {xt}>", setup, lambda ns: METHOD[ns["xt"]](ns["v"], ns["X"]),
+                                         [post("method-builds-the-expression-the-front-end-builds", same_as_front_end)],
+                                         mode="D", label=f"{front},{receiver},xtype={xt}", allow_exc=(AttributeError,))
+                out.extend(obs)
     return out
 
 
